@@ -40,6 +40,10 @@ def units(tier):
         add("lim", "n=2 bb on-behalf-of cap=1 cancel=%d" % cancel, n=2, modes="bb", cap=1, cancel=cancel, J=2)
     add("lim", "n=2 ba on-behalf-of cap=2 cancel=0", n=2, modes="ba", cap=2, cancel=0, J=2)
     add("lim", "n=3 bab cap=1 retotal", n=3, modes="bab", cap=1, retotal=True, T=1, J=1)
+    for kind in ("sem", "lim"):
+        add(kind, "created outside the loop n=2 aa cap=1 cancel=1", n=2, modes="aa", cap=1, cancel=1, adapter=True, T=1)
+        add(kind, "created outside the loop n=2 an cap=1", n=2, modes="an", cap=1, adapter=True, T=1)
+    add("lim", "created outside the loop n=2 aa cap=1 retotal", n=2, modes="aa", cap=1, retotal=True, adapter=True, T=1)
     add("sem", "n=2 aa fast cancel=1 native", n=2, modes="aa", cap=1, cancel=1, native=True, fast=True)
     add("sem", "n=2 aa intruder", n=2, modes="aa", cap=1, intruder=True)
     add("lim", "n=2 aa intruder", n=2, modes="aa", cap=1, intruder=True)
